@@ -315,16 +315,26 @@ def subspace_names(base, target):
 
 
 def _pv_eq(parent, a, b):
-  if parent['kind'] == 'BOOL':
-    return _as_boolstr(a) == _as_boolstr(b)
+  """Do a and b denote the same value of the (non-DOUBLE) parent param?"""
+  a, b = _coerce_bool(parent, a), _coerce_bool(parent, b)
   if isinstance(a, str) or isinstance(b, str):
     return isinstance(a, str) and isinstance(b, str) and a == b
   return a == b
 
 
-def _as_boolstr(v):
-  if isinstance(v, bool):
-    return 'True' if v else 'False'
+pv_eq = _pv_eq
+
+
+def enc(v):
+  """JSON-safe encoding of a candidate value (evidence forbids nan/inf)."""
+  if isinstance(v, float) and not math.isfinite(v):
+    return {'nf': repr(v)}
+  return v
+
+
+def dec(v):
+  if isinstance(v, dict):
+    return float(v['nf'])
   return v
 
 
